@@ -34,7 +34,7 @@ Proof.
   - destruct Ho.
 Qed.
 
-Theorem mp4_async_native_is_model (cfg : config) (fuel : nat) (ms : N) (st : stk) (data : bytes) (inp : input) (sc : sch) :
+Theorem mp4_async_native_is_model (cfg : config) (fuel : nat) (ms : N) (st : stk) (data : bytes) (inp : Prog.input) (sc : sch) :
   stk_ok st -> blen data <= I64MAX -> ms_ok (blen data) ms -> inp_is inp data ->
   exists s' sc',
     run_san_sched BOXHEADER_MAX_SIZE (pending_reader (stk_reader ms st)) (sanitize_prog cfg fuel) (stack_init ms st data) sc
